@@ -82,6 +82,8 @@ class _GraphIO(collections.UserList["_core.Value"]):
     def insert(self, i: int, item: _core.Value) -> None:
         """Insert an input/output to the graph."""
         # Perform checks first in _set_graph before modifying the data structure
+        if not isinstance(i, SupportsIndex):
+            raise TypeError(f"Index must be an integer, not {type(i)}")
         self._set_graph(item)
         super().insert(i, item)
         self._check_invariance()
@@ -165,6 +167,7 @@ class _GraphIO(collections.UserList["_core.Value"]):
     __iadd__ = _unimplemented
     __mul__ = _unimplemented
     __rmul__ = _unimplemented
+    __imul__ = _unimplemented
 
 
 class GraphInputs(_GraphIO):
